@@ -15,4 +15,15 @@ def iquoC (a b : Int) : Except Err Int :=
 def quoTruncC (a b : Int) : Except Err Int :=
   if b = 0 then .error .panicDivZero else chk (Dec.quoTruncate a b)
 
+/-- `sdk.Coins.Sub` / `sdk.DecCoins.Sub` on one denom: a negative result panics. -/
+def coinsSubC (a b : Int) : Except Err Int :=
+  if a - b < 0 then .error .panicNegCoin else .ok (a - b)
+
+/-- `ammkeeper.PortionCoins(coins, portion)` on one denom: `amount.ToLegacyDec().Mul(portion).RoundInt()`; `sdk.NewCoin` panics on a
+negative amount. -/
+def portionC (c p : Int) : Except Err Int := do
+  let m ← mulC (c * P) p
+  let r := Dec.roundInt m
+  if r < 0 then .error .panicNegCoin else pure r
+
 end Elys.Amm
